@@ -24,42 +24,23 @@ theorem noV2_flatMap {α : Type} (f : α → List (RK × String)) (l : List α) 
 
 /-! ### schemas -/
 
-theorem docRefs_refFree {V : Type} (s : Sch V) (h : refFree s = true) : docRefs s = [] := by
-  refine (Sch.induct (P := fun s => refFree s = true → docRefs s = [])
-    (Q := fun ks => refFreeKids ks = true → docRefsKids ks = []) ?_ ?_ ?_ ?_).1 s h
-  · intro k n h; simp [refFree] at h
-  · intro hd kids ih h
-    simp only [refFree, Bool.and_eq_true] at h
-    simp [docRefs, ih h.2]
-  · intro _; simp [docRefsKids]
-  · intro sl c rest ihc ihr h
-    simp only [refFreeKids, Bool.and_eq_true] at h
-    simp [docRefsKids, ihc h.1, ihr h.2]
-
-theorem docRefs_addlToV3 {V : Type} (s : Sch V) (h : addlPure s = true) (hw : v2Refs s = true) :
+theorem docRefs_addlToV3 {V : Type} (s : Sch V) (hw : v2Refs s = true) :
     noV2 (docRefs (addlToV3 s)) := by
-  refine (Sch.induct (P := fun s => addlPure s = true → v2Refs s = true → noV2 (docRefs (addlToV3 s)))
-    (Q := fun ks => addlPureKids ks = true → v2RefsKids ks = true → noV2 (docRefsKids (addlKids ks)))
-    ?_ ?_ ?_ ?_).1 s h hw
-  · intro k n _ hw kn hk
+  refine (Sch.induct (P := fun s => v2Refs s = true → noV2 (docRefs (addlToV3 s)))
+    (Q := fun ks => v2RefsKids ks = true → noV2 (docRefsKids (addlKids ks)))
+    ?_ ?_ ?_ ?_).1 s hw
+  · intro k n hw kn hk
     simp only [addlToV3, docRefs, List.mem_singleton] at hk
     subst hk
     cases k <;> simp_all [toV3RK, v2Refs, RK.isV2]
-  · intro hd kids ih h hw
-    simp only [addlPure, Bool.and_eq_true] at h
+  · intro hd kids ih hw
     simp only [v2Refs, Bool.and_eq_true] at hw
-    simpa [addlToV3, docRefs] using ih h.2 hw.2
-  · intro _ _; simpa [addlKids, docRefsKids] using noV2_nil
-  · intro sl c rest ihc ihr h hw
-    simp only [addlPureKids, Bool.and_eq_true] at h
+    simpa [addlToV3, docRefs] using ih hw.2
+  · intro _; simpa [addlKids, docRefsKids] using noV2_nil
+  · intro sl c rest ihc ihr hw
     simp only [v2RefsKids, Bool.and_eq_true] at hw
-    by_cases hs : sl = Slot.addl
-    · simp only [hs, if_true] at h
-      simp only [addlKids, hs, if_true, docRefsKids]
-      exact noV2_append (ihc h.1 hw.1) (ihr h.2 hw.2)
-    · simp only [hs, if_false] at h
-      simp only [addlKids, hs, if_false, docRefsKids, docRefs_refFree c h.1, List.nil_append]
-      exact ihr h.2 hw.2
+    simp only [addlKids, docRefsKids]
+    exact noV2_append (ihc hw.1) (ihr hw.2)
 
 /-- **ToV3SchemaRef leaves no reference in OpenAPI 2 form** (inside the fragment of `toV3S_preserves_partial`) -/
 theorem docRefs_toV3S {V : Type} (s : Sch V) (h : addlImpure s = false) (hw : v2Refs s = true) :
@@ -82,7 +63,7 @@ theorem docRefs_toV3S {V : Type} (s : Sch V) (h : addlImpure s = false) (hw : v2
     by_cases hs : sl = Slot.addl
     · simp only [hs, if_true, Bool.not_eq_false'] at h
       simp only [toV3Kids, hs, if_true, docRefsKids]
-      exact noV2_append (docRefs_addlToV3 c h.1 hw.1) (ihr h.2 hw.2)
+      exact noV2_append (docRefs_addlToV3 c hw.1) (ihr h.2 hw.2)
     · simp only [hs, if_false] at h
       simp only [toV3Kids, hs, if_false, docRefsKids]
       exact noV2_append (ihc h.1 hw.1) (ihr h.2 hw.2)
@@ -456,39 +437,62 @@ theorem docBody_sub {V : Type} (d : Doc2 V) (h : docBody d = true) : docInputs d
     simp [inputOKF, List.all_eq_true.mp hin q hq]
   · rw [formVals_none _ o.params hin]; rfl
 
-/-- **Document level, round trip, of ToV3 itself**: `api2_roundtrip_body` with `toV3` (ResolveRefsIn included) in
-    place of `toV3Raw` -/
-theorem api2_roundtrip_toV3 {V : Type} (d : Doc2 V) (h : docBodyBack d = true) :
+theorem docBodyBack_sub {V : Type} (d : Doc2 V) (h : docBodyBack d = true) : docInputsBack d = true := by
+  simp only [docBodyBack, Bool.and_eq_true] at h
+  obtain ⟨⟨⟨⟨⟨⟨hbody, hparamsB⟩, hpnodup⟩, hpathsB⟩, hrespsB⟩, hdefsB⟩, hloc⟩ := h
+  simp only [docInputsBack, Bool.and_eq_true]
+  refine ⟨⟨⟨⟨⟨⟨docBody_sub d hbody, hparamsB⟩, hpnodup⟩, ?_⟩, hrespsB⟩, hdefsB⟩, hloc⟩
+  apply List.all_eq_true.mpr
+  intro p hp
+  have hpb := List.all_eq_true.mp hpathsB p hp
+  simp only [pathBodyBack, Bool.and_eq_true] at hpb
+  simp only [pathInputsBack, Bool.and_eq_true]
+  refine ⟨hpb.1, ?_⟩
+  apply List.all_eq_true.mpr
+  intro o ho
+  have hob := List.all_eq_true.mp hpb.2 o ho
+  simp only [opBodyBack, Bool.and_eq_true] at hob
+  simp only [opInputsBack, Bool.and_eq_true]
+  refine ⟨?_, hob.2⟩
+  apply List.all_eq_true.mpr
+  intro q hq
+  simp [inputOKFBack, List.all_eq_true.mp hob.1.1 q hq]
+
+/-- **Document level, round trip, of ToV3 itself** (body and form parameters): `api2_roundtrip_inputs` with `toV3`
+    (ResolveRefsIn included) in place of `toV3Raw` -/
+theorem api2_roundtrip_toV3 {V : Type} (d : Doc2 V) (h : docInputsBack d = true) :
     ∃ d3 d2, toV3 d = .ok d3 ∧ fromV3 d3 = some d2 ∧
       rel2 OpA.sim (api2 d2).ops (api2 d).ops ∧ (api2 d2).pathParams = (api2 d).pathParams ∧
       (api2 d2).shared.Perm (api2 d).shared ∧ (api2 d2).sharedResponses = (api2 d).sharedResponses ∧
       (api2 d2).defs = (api2 d).defs ∧ (api2 d2).security = (api2 d).security ∧
       (api2 d2).securityReq = (api2 d).securityReq ∧
       (∀ x, x ∈ (api2 d2).servers ↔ x ∈ (api2 d).servers) := by
-  have hb : docBody d = true := by
-    simp only [docBodyBack, Bool.and_eq_true] at h
+  have hb : docInputs d = true := by
+    simp only [docInputsBack, Bool.and_eq_true] at h
     exact h.1.1.1.1.1.1
-  rw [toV3_resolves d (docBody_sub d hb)]
-  exact api2_roundtrip_body d h
+  rw [toV3_resolves d hb]
+  exact api2_roundtrip_inputs d h
 
 /-! ### the property, assembled -/
 
-theorem bodiesOK_of_back {V : Type} (d : Doc2 V) (h : docBodyBack d = true) : bodiesOK d = true := by
-  simp only [docBodyBack, Bool.and_eq_true] at h
+theorem bodiesOK_of_back {V : Type} (d : Doc2 V) (h : docInputsBack d = true) : bodiesOK d = true := by
+  simp only [docInputsBack, Bool.and_eq_true] at h
   obtain ⟨⟨⟨⟨⟨⟨_, hparamsB⟩, _⟩, hpathsB⟩, _⟩, _⟩, _⟩ := h
-  have hin : ∀ cs (q : PRef2 V), inputOKBack cs q = true → bodyParamOK q = true := by
+  have hin : ∀ cs (q : PRef2 V), inputOKFBack cs q = true → bodyParamOK q = true := by
     intro cs q hq
     cases q with
     | ref _ _ => rfl
     | val p =>
-      simp only [inputOKBack, Bool.or_eq_true] at hq
-      rcases hq with hq | hq
+      simp only [inputOKFBack, inputOKBack, Bool.or_eq_true] at hq
+      rcases hq with (hq | hq) | hq
       · simp only [paramSimpleBack, Bool.and_eq_true, bne_iff_ne, ne_eq] at hq
         simp [bodyParamOK, hq.1.1.1]
       · simp only [bodyOKBack, Bool.and_eq_true] at hq
         cases hs : p.schema with
         | none => simp [hs] at hq
         | some s => simp [bodyParamOK, hs]
+      · simp only [formOKBack, Bool.and_eq_true, beq_iff_eq] at hq
+        simp [bodyParamOK, hq.1.1.1]
   simp only [bodiesOK, Bool.and_eq_true]
   constructor
   · apply List.all_eq_true.mpr
@@ -501,41 +505,41 @@ theorem bodiesOK_of_back {V : Type} (d : Doc2 V) (h : docBodyBack d = true) : bo
       | val p =>
         simp only [hq, sharedSimpleBack, Bool.and_eq_true, bne_iff_ne, ne_eq] at hs
         simp [bodyParamOK, hs.1.1.1]
-    · exact hin d.consumes kp.2 (by simp [inputOKBack, hb])
+    · exact hin d.consumes kp.2 (by simp [inputOKFBack, inputOKBack, hb])
   · apply List.all_eq_true.mpr
     intro p hp
     have hpb := List.all_eq_true.mp hpathsB p hp
-    simp only [pathBodyBack, Bool.and_eq_true] at hpb
+    simp only [pathInputsBack, Bool.and_eq_true] at hpb
     apply List.all_eq_true.mpr
     intro o ho
     have hob := List.all_eq_true.mp hpb.2 o ho
-    simp only [opBodyBack, Bool.and_eq_true] at hob
+    simp only [opInputsBack, Bool.and_eq_true] at hob
     apply List.all_eq_true.mpr
     intro q hq
-    exact hin _ q (List.all_eq_true.mp hob.1.1 q hq)
+    exact hin _ q (List.all_eq_true.mp hob.1 q hq)
 
-/-- **C17 on the document fragment with body parameters, in one statement** (full statement of the header of
-    Props/C17.lean, outside the open finding classes and up to the order of request inputs / shared parameters):
+/-- **C17 on the document fragment with body and form parameters, in one statement** (full statement of the header
+    of Props/C17.lean, outside the open finding classes and up to the order of request inputs / shared parameters):
     the document converts (ResolveRefsIn included), the converted document passes the modelled part of Validate
     and describes the same API, converting back does not panic and yields a document that describes that API again. -/
-theorem conversion_correct {V : Type} (d : Doc2 V) (h : docBodyBack d = true) (hn : namesOK d = true) :
+theorem conversion_correct {V : Type} (d : Doc2 V) (h : docInputsBack d = true) (hn : namesOK d = true) :
     ∃ d3 d2, toV3 d = .ok d3 ∧ validates3 d3 = true ∧ Api.sim (api3 d3) (api2 d) ∧ fromV3 d3 = some d2 ∧
       rel2 OpA.sim (api2 d2).ops (api2 d).ops ∧ (api2 d2).pathParams = (api2 d).pathParams ∧
       (api2 d2).shared.Perm (api2 d).shared ∧ (api2 d2).sharedResponses = (api2 d).sharedResponses ∧
       (api2 d2).defs = (api2 d).defs ∧ (api2 d2).security = (api2 d).security ∧
       (api2 d2).securityReq = (api2 d).securityReq ∧
       (∀ x, x ∈ (api2 d2).servers ↔ x ∈ (api2 d).servers) := by
-  have hb : docBody d = true := by
-    simp only [docBodyBack, Bool.and_eq_true] at h
+  have hb : docInputs d = true := by
+    simp only [docInputsBack, Bool.and_eq_true] at h
     exact h.1.1.1.1.1.1
   obtain ⟨d3, d2, h1, h2, hrest⟩ := api2_roundtrip_toV3 d h
-  obtain ⟨d3', h1', hsim⟩ := api3_toV3 d (docBody_sub d hb)
+  obtain ⟨d3', h1', hsim⟩ := api3_toV3 d hb
   have he : d3' = d3 := by
     rw [h1] at h1'
     simp only [Res.ok.injEq] at h1'
     exact h1'.symm
   subst he
-  have hraw : toV3Raw d = .ok d3' := by rw [← toV3_resolves d (docBody_sub d hb)]; exact h1
+  have hraw : toV3Raw d = .ok d3' := by rw [← toV3_resolves d hb]; exact h1
   exact ⟨d3', d2, h1, toV3_validates_partial d d3' hraw hn (bodiesOK_of_back d h), hsim, h2, hrest⟩
 
 /-- non-vacuity of `conversion_correct`: shared header and body parameters, an operation mixing an inline body with
@@ -559,7 +563,39 @@ example :
                             info := [("summary", 3)], security := some 0 },
                           { method := "put", opId := "b", consumes := [], produces := [],
                             params := [.val q, .ref RK.par2 "bp"], responses := [("200", ok)] }] }] }
-    docBodyBack d = true ∧ namesOK d = true := by
+    docBodyBack d = true ∧ docInputsBack d = true ∧ namesOK d = true := by
+  decide
+
+/-! ### FromV3Operation's search for a body parameter name (F-C17-15) -/
+
+/-- regression (F-C17-15, body-parameter half, fixed by c26cd6a; the input of corpus f15): an operation with a body
+    parameter and query parameters named `body` and `requestBody` converts back -/
+theorem nameClash_regression_body :
+    let b : Param2 Nat := { name := "payload", loc := "body", required := false, cons := {}, items := none,
+                            schema := some (.node { ty := some "object" } []) }
+    let q (n : String) : Param2 Nat := { name := n, loc := "query", required := false, cons := { ty := some "string" },
+                                          items := none, schema := none }
+    let d : Doc2 Nat := { loc := { host := "", basePath := "", schemes := [] }, consumes := [], produces := [],
+                          params := [], responses := [], defs := [], secs := [],
+                          paths := [{ path := "/x", params := [],
+                                      ops := [{ method := "post", opId := "p", consumes := [], produces := [],
+                                                params := [.val b, .val (q "body"), .val (q "requestBody")], responses := [] }] }] }
+    (match toV3 d with | .ok d3 => (match fromV3Full d3 with | .ok _ => true | _ => false) | .error _ => false) = true := by
+  decide
+
+/-- witness (F-C17-15, what is left): the request body formDataBody builds carries no `x-originalParamName`, so the
+    same operation with a form parameter instead of the body parameter still makes FromV3 fail -/
+theorem nameClash_witness_form :
+    let f : Param2 Nat := { name := "f", loc := "formData", required := false, cons := { ty := some "string" },
+                            items := none, schema := none }
+    let q (n : String) : Param2 Nat := { name := n, loc := "query", required := false, cons := { ty := some "string" },
+                                          items := none, schema := none }
+    let d : Doc2 Nat := { loc := { host := "", basePath := "", schemes := [] }, consumes := [], produces := [],
+                          params := [], responses := [], defs := [], secs := [],
+                          paths := [{ path := "/x", params := [],
+                                      ops := [{ method := "post", opId := "p", consumes := ["multipart/form-data"], produces := [],
+                                                params := [.val f, .val (q "body"), .val (q "requestBody")], responses := [] }] }] }
+    (match toV3 d with | .ok d3 => (match fromV3Full d3 with | .error => true | _ => false) | .error _ => false) = true := by
   decide
 
 end KinModel.Conv
